@@ -792,6 +792,26 @@ func planFor(prop, tier string) (*plan, error) {
 				ps = append(ps, flowProg(f, "S:form="+form))
 			}
 		}
+		// value types that are assignable to one another (named interfaces with one method set): an argument bound
+		// to the wrong provider still compiles, so only the values tell; and parameter lists that repeat a type
+		for _, n := range []string{"chain2", "multi", "join", "diamond", "dup3"} {
+			f := exprConc(pg.Shape(n))
+			for i := range f.Types {
+				f.Types[i] = pg.SpIface
+			}
+			ps = append(ps, flowProg(f, "S:types=iface"))
+		}
+		for _, pat := range []string{"00", "001", "010", "100", "011", "101", "110", "0011", "0101"} {
+			for _, sp := range []string{"", pg.SpIface} {
+				f := exprConc(pg.Shape("rep:" + pat))
+				for i := range f.Types {
+					if sp != "" {
+						f.Types[i] = sp
+					}
+				}
+				ps = append(ps, flowProg(f, "S:rep:"+pat+":"+sp))
+			}
+		}
 		for _, enc := range []string{"closure", "generic", "method", "nested2"} {
 			f := exprConc(pg.Shape("chain2"))
 			p := flowProg(f, "S:enclose="+enc)
